@@ -342,7 +342,13 @@ Inductive op : Type :=
 | OMintIssue (actor d amt : Z)
 | OMintIssue2 (actor d amt1 amt2 : Z)      (* two MsgMintIssueTx in ONE transaction: all or nothing *)
 | OBurn (actor d amt : Z)
-| OFee (actor amt : Z).
+| OFee (actor amt : Z)
+| OGenesis.                                  (* genesis export, stores wiped, genesis import: the history continues *)
+
+(* A genesis round trip is the identity on everything modelled here, except that a snapshot amount
+   that was never stored (nil Int) is exported as 0 and comes back as a stored 0. *)
+Definition snap_norm (p : snap) : snap := mkSnap (sn_time p) (Some (match sn_amt p with Some a => a | None => 0 end)).
+Definition genesis_roundtrip (s : st) : st := set_snaps s (snap_norm (s_psnap s)) (snap_norm (s_ysnap s)).
 
 Definition step (cf : config) (s : st) (o : op) : outcome st :=
   match o with
@@ -357,6 +363,7 @@ Definition step (cf : config) (s : st) (o : op) : outcome st :=
   | OMintIssue2 actor d amt1 amt2 => do s1 <- mint_issue cf s actor d amt1; mint_issue cf s1 actor d amt2
   | OBurn actor d amt => mint_burn s actor d amt
   | OFee actor amt => debit s actor native amt
+  | OGenesis => Ok (genesis_roundtrip s)
   end.
 
 (* a rejected or panicking operation leaves the state unchanged (transaction / proposal cache;
